@@ -210,8 +210,23 @@ TRANSFORMS = corpus.TRANSFORMS + ["from_cache"]
 STYLES = ["check", "recheck"]
 
 
+_members: list[tuple[int, int, int]] | None = None
+
+
+def members() -> list[tuple[int, int, int]]:
+    """(case index, transform index, style index) of every member of the finite family. `recheck` without
+    arguments re-runs the same increment as `check <same files>` unless imports are followed, so the
+    recheck style is a separate member only for the follow-imports cases."""
+    global _members
+    if _members is None:
+        cases = fg_cases()
+        _members = [(ci, ti, si) for si in range(len(STYLES)) for ti in range(len(TRANSFORMS)) for ci in range(len(cases))
+                    if si == 0 or cases[ci].get("follow")]
+    return _members
+
+
 def family_size() -> int:
-    return len(fg_cases()) * len(TRANSFORMS) * len(STYLES)
+    return len(members())
 
 
 def gen_corpus(k: int, tier: str) -> dict[str, Any] | None:
@@ -219,9 +234,8 @@ def gen_corpus(k: int, tier: str) -> dict[str, Any] | None:
     cases = fg_cases()
     member = k  # member index of the finite family
     rng = kit.family_rng(PROP, "corpus-member", member)
-    c = cases[member % len(cases)]
-    tr = TRANSFORMS[(member // len(cases)) % len(TRANSFORMS)]
-    style = STYLES[(member // (len(cases) * len(TRANSFORMS))) % len(STYLES)]
+    ci, ti, si = members()[member % family_size()]
+    c, tr, style = cases[ci], TRANSFORMS[ti], STYLES[si]
     flags = corpus.step_flags(c, 0)
     files0 = dict(c["steps"][0])
     prelude_files = None
